@@ -76,12 +76,16 @@ func main() {
 		}
 		return strings.Join(tr, ";")
 	})
+	// rt <cfg> <observation> <t0B> <t0C> <ops B...> <ops C...>: a RECORDED real-time execution (tables/realtime.go): the
+	// observation was taken from the library while the schedule ran with real sleeps; the model gets the measured intervals
+	r.Register("rt", func(a []string) string { return a[1] })
 	if r.Replayed() {
 		return
 	}
 
 	cfg := tables.StdCfg()
 	g := &tables.Gen{U: tables.StdUniverse(), Rng: rng, Discipline: true}
+	rtBatch(r, rng)
 	nShort, nLong := 300, 400
 	if r.Thorough() {
 		nShort, nLong = 3000, 10000
@@ -250,5 +254,21 @@ func main() {
 		ips, _ := tables.Candidates(cfg, pure)
 		r.Do("t6c", append([]string{cfg.Tok(), "0", tables.IPsTok(ips)}, pure...)...)
 		stat(pure)
+	}
+}
+
+// rtBatch: real-time histories in parallel sessions (about 8 s of wall time in quick)
+func rtBatch(r *lib.Run, rng *lib.Rand) {
+	n := 120
+	if r.Thorough() {
+		n = 1200
+	}
+	for _, res := range tables.RealTimeBatch(rng, n, 40) {
+		if res.Ambiguous {
+			r.Stat("rt.timing-ambiguous-discarded", 1)
+			continue
+		}
+		r.Do("rt", res.Args...)
+		r.Stat("class.real-time", 1)
 	}
 }
